@@ -35,7 +35,7 @@ EXPLANATION = ("quick: ALL sets of 1..2 reactions over the 90 reactions between 
                "Theorems (all inputs, closed under the global context): complexes = the distinct reactant/product vectors (NoDup, complete, vectors equal iff "
                "multisets equal), complex-graph arcs, linkage classes = connected components (partition, same class iff undirected path; fuel suffices), weak "
                "reversibility <-> every class strongly connected <-> every arc has a return path, deficiency = n - l - exact (MathComp) rank, "
-               "rank S + l <= n hence deficiency >= 0, and sum of class deficiencies <= deficiency (ranks certified by the proved checker).")
+               "rank S + l <= n hence deficiency >= 0, sum of class deficiencies <= deficiency and every class deficiency >= 0 (ranks certified by the proved checker).")
 TRUSTED_BASE = [
     "Coq 8.16.1 kernel + vm_compute (no native_compute)",
     "MathComp 1.15 (\\rank over rat) + mathcomp.zify for lib/RankBridge.v, axiom-free",
@@ -62,7 +62,7 @@ LEVEL_TEXT = ("Machine-checked proof (Coq) about an executable model of Deficien
               "negative (rank S + l <= n proved from S = Y*Ia), and the linkage-class deficiencies never sum to more than it. The model is compared "
               "with the Python code (complex list, arcs, classes, all integers and flags, class deficiencies) on every run over an exhaustive small "
               "scope, random and textbook networks; numpy's float ranks are compared with the certified exact ranks per input.")
-LEVEL_NOTE = ("Universal: all fourteen model theorems and checker soundness. Per input: float ranks vs certified ranks; networkx component routines vs "
+LEVEL_NOTE = ("Universal: all sixteen model theorems and checker soundness. Per input: float ranks vs certified ranks; networkx component routines vs "
               "the model's closures; regularity and the deficiency-zero/one front ends. Trusted: Coq kernel, MathComp, model + encoders. "
               "networkx/numpy results are compared, not trusted.")
 TECHNIQUE = ("Coq proof about a Gallina model (stdlib lists: walk invariant, lib/Reach saturation; MathComp: rank of Y*Ia, kernel of the incidence "
